@@ -72,6 +72,20 @@ def build(case: dict, n: int) -> dict | None:
                 return None
             defs["mk"] = DEF([], [RETURN(LIST(I(1), I(2), I(3)))])
             have.add("b"); body.append(ASSIGN("b", CALL("mk")))
+        elif op == "append-own-first":
+            need("a"); body.append(APPEND("a", INDEX(V("a"), I(0))))
+        elif op == "append-own-last":
+            need("a"); body.append(APPEND("a", INDEX(V("a"), I(-1))))
+        elif op == "swap-a-b":
+            need("a"); need("b"); body.append(TUPLE(["a", "b"], [V("b"), V("a")]))
+        elif op == "swap-in-function":
+            need("a"); need("b")
+            defs["swp"] = DEF([], [TUPLE(["a", "b"], [V("b"), V("a")])], ["a", "b"])
+            body.append(EXPR(CALL("swp")))
+        elif op == "index-into-other":
+            need("a"); need("b"); body.append(WRITE(INDEX(V("b"), INDEX(V("a"), I(0)))))
+        elif op == "append-from-other":
+            need("a"); need("b"); body.append(APPEND("a", INDEX(V("b"), I(-1))))
         elif op == "string-concat":
             need("s"); body.append(ASSIGN("s", BIN("+", V("s"), S("x"))))
         elif op == "string-len":
